@@ -41,6 +41,17 @@ LEAF = {
     "trusted": ["Kani 0.68 / CBMC 6.11 and the `subtle` crate's Choice"],
 }
 
+ZIGZAG = {
+    "name": "DEP_ZIGZAG", "backend": "kani", "crate": "zigzag", "raw": [], "use_repo_lock": True,
+    "harnesses": {
+        "peek_delimits_a_complete_varint": {"group": "zigzag_peek", "function": "uint_zigzag::Uint::{peek, try_from}", "repo_location": "dependency uint-zigzag (Cargo.lock)", "obligation": "L-ZIGZAG: peek(s) = Some(k) => 1 <= k <= min(|s|,19), s[..k] is a complete varint, try_from succeeds on it with the value of try_from(s); every byte string of length <= 20"},
+        "length_prefix_round_trip": {"group": "zigzag_round_trip", "function": "uint_zigzag::Uint::{to_vec, peek, try_from}", "repo_location": "dependency uint-zigzag (Cargo.lock)", "obligation": "L-ZIGZAG: for every 64-bit length n, to_vec has <= 10 bytes, peek of (to_vec(n) ++ 2 arbitrary bytes) delimits it, try_from gives n back"},
+    },
+    "bound_note": "complete for the assumption as used: all byte strings up to 20 bytes (a varint has at most 19), all 64-bit lengths; trailing data limited to 2 symbolic bytes (peek never reads past the terminating byte)",
+    "trusted": ["Kani 0.68 / CBMC 6.11"],
+}
+
+
 def leaf(*relevant):
     d = dict(LEAF)
     d["relevant"] = list(relevant)
@@ -116,8 +127,8 @@ PROPS = {
         "not_decided": ["'rejected once the timeout has elapsed' is proved as: Ok implies the equation for the derived challenge, and the elapsed-time comparison is part of the verified body; the wall clock itself is an arbitrary value"],
     },
     "C11": {
-        "units": [leaf("assertion failed: o"), gen("C11", props=["lib_payload.rs", "C11.rs"])],
-        "trusted_base": TB_ALGEBRA + ["H-XOF: SHAKE128 is an uninterpreted function of (absorbed input, output length)", "L-ZIGZAG: LEB128 peek/try_from/to_vec facts (prefix, round trip, length <= 19)", "A-RNG (see C20)",
+        "units": [leaf("assertion failed: o"), ZIGZAG, gen("C11", props=["lib_payload.rs", "C11.rs"])],
+        "trusted_base": TB_ALGEBRA + ["H-XOF: SHAKE128 is an uninterpreted function of (absorbed input, output length)", "L-ZIGZAG: LEB128 peek/try_from/to_vec facts (prefix, round trip, length <= 19) — checked by Kani on the real uint-zigzag crate (unit DEP_ZIGZAG); the link between the Verus-side spec functions leb/leb_peek/leb_decode and the crate is by these facts", "A-RNG (see C20)",
                                       "byte_xor is PROVED for every length by Verus (zip loop invariant); the Kani harnesses at N in {0,4} are a bounded second opinion"],
         "hypotheses": [X_NONID, "X-INJ / X-DSEP on the hash input enc(U)||V for altered U, V or scheme label", "X-RO: a different secret key unmasks with an unrelated keystream"],
         "bounded_parts": ["Kani second opinion on byte_xor at N in {0, 4} (the unbounded proof is Verus')"],
@@ -130,7 +141,7 @@ PROPS = {
         "not_decided": ["'fewer than t shares never return the original message' (information-theoretic / statistical)", "that t of n scalar shares recombine to the key is the hypothesis combined(f) == Some(sk) of c12_shares_decrypt_like_the_whole_key (L-LAGRANGE, vsss-rs)"],
     },
     "C13": {
-        "units": [leaf("assertion failed: o"), gen("C13", props=["lib_payload.rs", "lib_shares.rs", "C13.rs"])],
+        "units": [leaf("assertion failed: o"), ZIGZAG, gen("C13", props=["lib_payload.rs", "lib_shares.rs", "C13.rs"])],
         "trusted_base": TB_ALGEBRA + ["H-XOF / H-HASH: SHAKE128 and SHA-256 are uninterpreted functions of their input", "L-ZIGZAG (see C11)", "A-RNG (see C20)", "Gt is determined by its discrete log; gt_enc is injective",
                                       "E3d: a.iter().copied().chain(b.iter().copied()).collect() is modelled as concatenation", "byte_xor: proved by Verus (see C11)"],
         "hypotheses": [X_NONID, "X-RO for 'wrong id / wrong key / tampering yields nothing': another pairing value or another masked byte gives an unrelated alpha and check scalar"],
@@ -161,7 +172,7 @@ PROPS = {
         "safety": True,
         # the checked (debug-assertion) build view of the payload decryption paths
         "thorough_units": [dict(gen("C17", props=["C17_debug.rs"]), view="debug", tags=["C17D"], needs_witness=True)],
-        "units": [leaf("overflow", "index out of bounds", "panic", "unwrap", "out of range", "attempt to"), gen("C17", props=["lib_bytes.rs", "C17.rs"])],
+        "units": [leaf("overflow", "index out of bounds", "panic", "unwrap", "out of range", "attempt to"), ZIGZAG, gen("C17", props=["lib_bytes.rs", "C17.rs"])],
         "trusted_base": TB_ALGEBRA + ["A-TIME (see C10)", "L-SERDE: serde / serde_bare / serde_json decoders and the curve crates' parsers are not verified"],
         "hypotheses": [],
         "not_decided": ["serde-derived decoders (serde_bare / serde_json) and the curve crates' own parsers", "termination of the two probabilistic retry loops (zero scalar re-draw)"],
